@@ -58,8 +58,8 @@ CFG["manifest"] = dict(
          "statement itself on result and request log.",
     note="Trusted: Lean kernel; translator tools/extract + GoSem.lean; harness, scripted MockBroker handlers (overlay c19_cluster.go) and line protocol. "
          "Modelled not verified: client-side controller/leader/coordinator caches (contract only), the wire codec (C09/C10), timing/back-off. "
-         "Repaired in /repo (the check would report them again as violations): Admin.Retry.Max=0 returned nil without sending (99dbc91); "
-         "AlterPartitionReassignments did not recognise NOT_CONTROLLER (0d72a77) nor a negative top-level code (299a530). Still a known finding: "
+         "Repaired in /repo (the check would report them again as violations): Admin.Retry.Max=0 returned nil without sending (1639279); "
+         "AlterPartitionReassignments did not recognise NOT_CONTROLLER (1bccd35) nor a negative top-level code (eae4ebe). Still a known finding: "
          "AlterPartitionReassignments reports success when the response lacks a requested partition. "
          "DescribeLogDirs with an unknown broker id never returns (observed, outside the statement).",
     technique="Lean 4 proof (induction over the retry loop with a client/world invariant; list counting for the grouping) + regenerated bridge obligations + differential correspondence against scripted mock brokers",
